@@ -693,8 +693,8 @@ func (m *Message) GetDialog() (string, error) {
 	}
 	// order the two (tag, address) halves themselves, so both directions of
 	// a dialog give the same identifier even if From and To have the same URI
-	from_half := fmt.Sprintf("%s-%s", from_tag, from_addr_s)
-	to_half := fmt.Sprintf("%s-%s", to_tag, to_addr_s)
+	from_half := fmt.Sprintf("%q-%q", from_tag, from_addr_s)
+	to_half := fmt.Sprintf("%q-%q", to_tag, to_addr_s)
 	if from_half < to_half {
 		return NewDialog(callId, from_half, to_half).String(), nil
 	} else {
